@@ -17,7 +17,7 @@ use syn::parse::{Parse, ParseStream, Parser};
 use syn::punctuated::Punctuated;
 use syn::Token;
 
-pub const RULE: &str = "lists of 0..5 expressions from a recursive grammar (depth <= 4) over every expression form (literals, paths, calls, turbofish method calls, casts to generic types and fn pointers, qualified paths, closures with typed parameter lists, comparisons and shifts with </>, ranges, blocks, if/match/loop, macros, struct literals, arrays, tuples, index/field/try, unary, const-generic braces), optional `alias =` per element, optional trailing comma, adversarial adjacency; oracle: syn's full Expr parser (cross-validated on a sample against rustc's own `$e:expr` matcher); checked: same number of elements, token-equal elements, ident() iff single identifier, sentinel bound through a real Display expansion, verbatim in-order re-emission; non-trivial = >=2 elements and >=1 element containing a comma nested in <>, || or a delimiter group; distinct by token text";
+pub const RULE: &str = "lists of 0..5 expressions from a recursive grammar (depth <= 4) over every expression form (literals, paths, calls, turbofish method calls, casts to generic types and fn pointers, qualified paths, closures with typed parameter lists and explicit return types, qualified paths over generated types, comparisons and shifts with </>, ranges, blocks, if/match/loop, macros, struct literals, arrays, tuples, index/field/try, unary, const-generic braces), optional alias per element written `name = e` or glued `name=e`, optional trailing comma, adversarial adjacency; oracle: syn's full Expr parser (cross-validated on a sample against rustc's own `$e:expr` matcher); checked: same number of elements, token-equal elements, ident() iff single identifier, through real expansions at four re-emission sites (struct/variant/shared-enum display, field-level debug): sentinel bound, verbatim in-order re-emission, single-argument delegating expansion, alias named like the field yields no field bound; non-trivial = >=2 elements and >=1 element containing a comma nested in <>, || or a delimiter group; distinct by token text";
 
 // ------------------------------------------------------------------------------------------------
 // expression generator (token strings)
